@@ -173,6 +173,11 @@ class C11(PropBase):
         # one name that is bytes-like in one module (carried verbatim by the top-level decode) and a class in the other
         world["modules"][0]["decls"].append({"d": "raw", "n": "VwBlob", "src": "VwBlob = typing.NewType('VwBlob', bytes)\n"})
         world["modules"][1]["decls"].append({"d": "dataclass", "n": "VwBlob", "fields": [{"n": "a", "t": {"k": "str"}}], "flags": {}})
+        # a recursive class kept on a namespace class, its cycle closed through a NewType / an alias of it
+        world["modules"][0]["decls"].append({"d": "raw", "n": "VwTreeNS", "src": (
+            "class VwTreeNS:\n    @dataclasses.dataclass\n    class VwNode:\n        v: int\n"
+            "        kids: 'list[VwNodeId]' = dataclasses.field(default_factory=list)\n        nxt: 'VwNodeAl | None' = None\n"
+            "VwNodeId = typing.NewType('VwNodeId', VwTreeNS.VwNode)\nVwNodeAl = typing.TypeAliasType('VwNodeAl', VwNodeId)\n")})
         # a class kept on a namespace class (its qualified name has two parts below the module)
         world["modules"][0]["decls"].append({"d": "raw", "n": "VwCanvas", "src": "class VwCanvas:\n    @dataclasses.dataclass\n    class VwPoint:\n        a: int\n        b: int = 0\n"})
         # the second module knows the first under a name that is also a loaded top-level module's
@@ -283,6 +288,12 @@ class C11(PropBase):
                     xw = {"$dict": [["k", {"$dict": [["a", "5"]]}], ["z", 1]]}
                     step = {"op": "transparent", "pos": "root", "dir": "unmarshal", "mod": mods[1], "x": xw, "chain": ["shadowed-module-name-in-signature"],
                             "t_base": tb, "t_wrapped": tw, "cmp": "kz"}
+                elif rng.random() < 0.3:
+                    tb = at_position(pos, {"k": "raw", "src": f"{mods[0]}.VwTreeNS.VwNode"})
+                    tw = at_position(pos, {"k": "raw", "src": f"{mods[0]}." + rng.choice(["VwNodeId", "VwNodeAl"])})
+                    node = {"$dict": [["v", "1"], ["kids", {"$list": [{"$dict": [["v", 2], ["nxt", {"$dict": [["v", "3"]]}]]}]}]]}
+                    x = wire_at(pos, node)
+                    step = {"op": "transparent", "pos": pos, "dir": "unmarshal", "mod": rng.choice(mods), "x": x, "chain": ["wrapper-of-nested-recursive-class"], "t_base": tb, "t_wrapped": tw}
                 elif rng.random() < 0.4:
                     tb = at_position(pos, {"k": "ref", "m": mods[0], "n": "VwOnly0"})
                     tw = at_position(pos, {"k": "fref", "s": "VwOnly0", "m": mods[1]})
